@@ -30,16 +30,27 @@ def check(run, prog, tier):
                     "list.extend appends in order; slicing semantics"]
     run.not_decided += ["completeness of the Boyer-Moore-Horspool search (a missed occurrence only costs bytes)"]
     sd = SD(run, prog)
-    sd.entry_writer("L1")
-    sd.entry_bits("B1")
-    sd.entry_reader("L3", guards_rule="L3")
-    sd.option_header("L1")
+    # independent rule groups: one that cannot be decided does not hide what another one establishes
+    with run.part("entry writer"):
+        sd.entry_writer("L1")
+        sd.entry_bits("B1")
+    with run.part("entry reader"):
+        sd.entry_reader("L3", guards_rule="L3")
+    with run.part("option header"):
+        sd.option_header("L1")
     reg = sd.registry("R1")
-    sd.option_bodies("L3", reg)
-    sd.unknown_option("L1")
-    sd.config_option("L1", "L3")
-    sd.sd_header_writer("L1", flags_rule="L1")
-    sd.sd_header_reader("L3", flags_rule="L3")
-    sd.resolve_assign("X1")
-    sd.find_certificate("X2")
-    sd.pipeline("P1")
+    with run.part("option bodies"):
+        sd.option_bodies("L3", reg)
+        sd.unknown_option("L1")
+    with run.part("configuration option"):
+        sd.config_option("L1", "L3")
+    with run.part("SD header writer"):
+        sd.sd_header_writer("L1", flags_rule="L1")
+    with run.part("SD header reader"):
+        sd.sd_header_reader("L3", flags_rule="L3")
+    with run.part("index assignment / resolution"):
+        sd.resolve_assign("X1")
+    with run.part("search certificate"):
+        sd.find_certificate("X2")
+    with run.part("send pipeline"):
+        sd.pipeline("P1")
